@@ -77,8 +77,19 @@ def gen_cases(tier, seed):
                 else:
                     kw[k] = pool.pop() if pool else rng.choice(POOL)
             tag = 'multi'
+        if style >= 0.35 and rng.random() < 0.3:
+            # an exact number of distinct colours: the palette / bit depth boundaries of the PNG writer (2|3, 4|5, 15)
+            want_n = rng.choice([3, 4, 5, 8, 15 if (not isinstance(v, str) and v >= 7) else 9])
+            cols = list(POOL[:])
+            rng.shuffle(cols)
+            cols = cols[:want_n]
+            kw = {k2: v2 for k2, v2 in kw.items() if k2 in ('scale', 'border')}
+            ks = ['dark', 'light'] + rng.sample(keys, min(len(keys), max(0, want_n - 2)))
+            for k2, c2 in zip(ks, cols):
+                kw[k2] = c2
+            tag = 'exact-%d' % want_n
         if rng.random() < 0.6:
-            kw['scale'] = rng.choice([1, 2, 3] if kind != 'svg' else [1, 2, 2.5, 0.5, 3.3])
+            kw['scale'] = rng.choice([1, 2, 3, 4, 8] if kind != 'svg' else [1, 2, 2.5, 0.5, 3.3])
         if rng.random() < 0.6:
             kw['border'] = rng.choice([0, 1, 2, 4, None])
         if kind == 'svg' and rng.random() < 0.2:
